@@ -17,7 +17,10 @@ def tableC12 : List (String × Rd String) := [
   ("spec.DiscreteUniform.invcdf", do
     let _ ← Wire.next; let d ← rd_DiscreteUniform; let p ← rdF; pure (wrI (Spec.DiscreteUniform.quantile d p))),
   ("hand.DiscreteUniform.invcdf", do
-    let _ ← Wire.next; let d ← rd_DiscreteUniform; let p ← rdF; pure (wrI (Hand.DiscreteUniform.invcdf d p)))
+    let _ ← Wire.next; let d ← rd_DiscreteUniform; let p ← rdF; pure (wrI (Hand.DiscreteUniform.invcdf d p))),
+  -- the generated cdf evaluated at an integer observation (X = T)
+  ("hand.DiscreteUniform.cdf", do
+    let _ ← Wire.next; let d ← rd_DiscreteUniform; let x ← rdI; pure (wrF (Gen.DiscreteUniform.cdf_real d (RealLike.ofIntR x))))
 ]
 
 end HandDispatch
